@@ -616,6 +616,10 @@ class SClient(NullHandler):
         while u['i'] < len(steps):
             st = steps[u['i']]
             op = st[0]
+            if op in ('send', 'close', 'drop', 'blackhole') and \
+                    u['got_probe'] and 'seq_after_probe' not in u:
+                # the client's first action on the socket after 3probe
+                u['seq_after_probe'] = self.k.seq
             if op == 'send':
                 d = st[1]
                 if isinstance(d, dict):
